@@ -2,16 +2,19 @@
 
 Executed symbolically (the real code of /repo/torchtree/evolution/tree_model.py):
     TimeTreeModel.update_leaf_heights   (bound method of a real TimeTreeModel built from JSON)
-    initialize_dates_from_taxa          (on the real dendropy tree produced by parse_tree/setup_indexes)
+    initialize_dates_from_taxa          (on the real dendropy tree produced by parse_tree / setup_indexes)
     setup_dates                         (dates parsed from taxon names  name_<date>)
     heights_from_branch_lengths         (dates + newick branch lengths -> internal heights)
 
 Symbolic inputs
-    q0..q{n-1} : int   date of taxon t_i is  q_i * STEP.  C06D_MODE=quarter: STEP = 0.25 (a float: every
-                       multiple of 0.25 in [0, 1e6], real arithmetic = float64 arithmetic there),
-                       C06D_MODE=int: STEP = 1 (dates are Python ints as they come out of a JSON file: 2000)
-    k : int            which newick string (tip order x shape) the tree was parsed from
-    b0..           : int   branch lengths of the newick tree, b_j * 0.25 (heights_from_branch_lengths only)
+    d0..d{n-1} : NUM   date of taxon t_i.  C06D_MODE=float: NUM = float, any real number in [0, DMAX]
+                       (CrossHair's real-number model of float, see chk/c06_dates_xh.py; it coincides with
+                       float64 arithmetic whenever the dates are multiples of 0.25, 1/365.25-free grids etc.
+                       that float64 adds/subtracts exactly).  C06D_MODE=int: NUM = int, dates are Python
+                       ints 0..DMAX as they come out of a JSON file (2000, 2003, ...)
+    k : int            which newick string (tip order x ordered shape) the tree was parsed from
+    b0..b3 : float     branch lengths of the newick tree, reals in [0, BMAX] (heights_from_branch_lengths)
+    e0..e2 : int       dates 0..NAME_DATE_MAX written into the taxon names (setup_dates)
 Concrete: the parse of the enumerated newick strings (dendropy, parse_tree, setup_indexes, TimeTreeModel
 constructor) happens once at import with the real code, outside the symbolic execution.
 
@@ -20,22 +23,22 @@ tree_model module namespace is a proxy whose `tensor(x)` returns the Python list
 `empty(n)` returns [None]*n; everything else is forwarded to the real torch.
 
 Every function has a `_twin` with the same precondition and body and a post that must be REFUTED
-(reachability / non-vacuity).  Only `Exception` is caught anywhere in this file.
+(reachability / non-vacuity).  Only `Exception` is caught anywhere in this file (in fact nothing is).
 """
 from __future__ import annotations
 
 import os as _os
 
 ACTIVE = _os.environ.get('C06D_ACTIVE') == '1'
-MODE = _os.environ.get('C06D_MODE', 'quarter')
-STEP = 0.25 if MODE == 'quarter' else 1
-QMAX = 4_000_000 if MODE == 'quarter' else 1_000_000  # dates <= 1e6
-BSTEP = 0.25
-BMAX = 400  # branch lengths <= 100
-NAME_DATE_MAX = int(_os.environ.get('C06D_NAMEMAX', '3'))  # setup_dates: dates 0..NAME_DATE_MAX written in the names
+MODE = _os.environ.get('C06D_MODE', 'float')
+NUM = float if MODE == 'float' else int
+DMAX = 1000000
+BMAX = 1000
+NAME_DATE_MAX = int(_os.environ.get('C06D_NAMEMAX', '3'))
 KLO = int(_os.environ.get('C06D_KLO', '0'))
 KHI = int(_os.environ.get('C06D_KHI', '1000000'))
-EPS = 1.0e-6
+TIER = _os.environ.get('C06D_TIER', 'quick')
+EPS = 1.0e-6  # default of heights_from_branch_lengths
 
 
 # ------------------------------------------------------------------ enumerated newick strings
@@ -62,17 +65,12 @@ def _perms(xs):
 
 
 def ordered_trees(n):
-    """every (tip order, ordered shape) pair: n! * Catalan(n-1) nested tuples of taxon positions"""
+    """every (tip order, ordered shape) pair: n! * Catalan(n-1) nested tuples of taxon positions
+    (12 for n = 3, 120 for n = 4); index 0 is the caterpillar (t0,(t1,(t2..))) in Taxa order"""
     out = []
     for p in _perms(list(range(n))):
         out.extend(_shapes(p))
     return out
-
-
-def tree_leaves(t):
-    if isinstance(t, tuple):
-        return tree_leaves(t[0]) + tree_leaves(t[1])
-    return [t]
 
 
 def newick_of(t, names=None, lengths=None):
@@ -92,16 +90,14 @@ def newick_of(t, names=None, lengths=None):
 
 
 def selection(n, tier):
-    """indices into ordered_trees(n) used as the range of the symbolic choice k"""
+    """indices into ordered_trees(n) that form the range of the symbolic choice k"""
     ts = ordered_trees(n)
     if n <= 3 or tier == 'thorough':
         return list(range(len(ts)))
-    # quick, n = 4: identity order and 7 other tip orders spread over the 5 shapes
-    want = [0, 7, 31, 44, 58, 73, 96, 119]
-    return [i for i in want if i < len(ts)]
+    # quick, n = 4: Taxa order and 7 other tip orders spread over the 5 ordered shapes
+    return [0, 7, 31, 44, 58, 73, 96, 119]
 
 
-TIER = _os.environ.get('C06D_TIER', 'quick')
 TREES = {n: [ordered_trees(n)[i] for i in selection(n, TIER)] for n in (3, 4)}
 
 
@@ -123,7 +119,7 @@ def tree_spec(t, n, dates=None, postorder=False, lengths=None, names=None):
 
 
 def build_model(t, n, dates=None, postorder=False, lengths=None):
-    """the real TimeTreeModel through the real JSON path"""
+    """the real TimeTreeModel through the real JSON path (process_object -> TimeTreeModel.from_json)"""
     import torchtree.evolution.taxa  # noqa: F401  (class registration)
     import torchtree.evolution.tree_model  # noqa: F401
     from torchtree.core.utils import process_object
@@ -132,8 +128,7 @@ def build_model(t, n, dates=None, postorder=False, lengths=None):
 
 
 # ------------------------------------------------------------------ set-up inside the CrossHair subprocess
-MODELS = {}  # (n, postorder) -> list of real TimeTreeModel, one per enumerated newick
-NAMED = {}  # n -> list of (dendropy tree with leaves named t<i>_<date>, label table)
+MODELS = {}  # (n, use_postorder_indices) -> list of real TimeTreeModel, one per enumerated newick
 TM = None
 
 
@@ -171,13 +166,23 @@ if ACTIVE:
 
 
 # ------------------------------------------------------------------ domain / oracle (independent of the code under analysis)
-def dates_of(q):
-    return [x * STEP for x in q]
+def dom(*d) -> bool:
+    for x in d:
+        if not (0 <= x <= DMAX):
+            return False
+    return True
 
 
-def dom(*q) -> bool:
-    for x in q:
-        if not (0 <= x <= QMAX):
+def bdom(*b) -> bool:
+    for x in b:
+        if not (0 <= x <= BMAX):
+            return False
+    return True
+
+
+def edom(*e) -> bool:
+    for x in e:
+        if not (0 <= x <= NAME_DATE_MAX):
             return False
     return True
 
@@ -196,9 +201,9 @@ def lo_hi(d):
     return lo, hi
 
 
-def is_ages(*q) -> bool:
-    """documented convention: `time starts at 0` when the smallest date is 0"""
-    return lo_hi(q)[0] == 0
+def is_ages(*d) -> bool:
+    """documented convention (`time starts at 0`): the smallest date is 0"""
+    return lo_hi(d)[0] == 0
 
 
 def oracle(d):
@@ -235,6 +240,8 @@ def p_order(d, h) -> bool:
     """(2) calendar dates: later date <=> smaller height; ages: order kept; ties <=> ties"""
     ages = lo_hi(d)[0] == 0
     n = len(d)
+    if len(h) != n:
+        return False
     for i in range(n):
         for j in range(n):
             if i == j:
@@ -264,11 +271,13 @@ def p_position(d, rows) -> bool:
     return True
 
 
-def p_tip_at_own_time(d, both) -> bool:
-    """(3') heights[node.index] is what every consumer reads for that tip: it has to be the height of the
-    tip's own taxon (no claim on which index a tip gets)"""
-    heights, rows = both
+def p_tip_at_own_time(d, res) -> bool:
+    """(3) sampling_times[node.index] is what every consumer of the tree model reads for that tip: it has to
+    be the height of the tip's own taxon (no claim on which index the tip gets); same for node.date"""
+    heights, rows = res
     want = oracle(d)
+    if len(rows) != len(d):
+        return False
     for pos, idx, date in rows:
         if not (heights[idx] == want[pos]):
             return False
@@ -277,9 +286,9 @@ def p_tip_at_own_time(d, both) -> bool:
     return True
 
 
-def p_agree(both) -> bool:
+def p_agree(res) -> bool:
     """(4) update_leaf_heights and initialize_dates_from_taxa agree: node.date == leaf_heights[node.index]"""
-    heights, rows = both
+    heights, rows = res
     if len(rows) != len(heights):
         return False
     for pos, idx, date in rows:
@@ -288,8 +297,8 @@ def p_agree(both) -> bool:
     return True
 
 
-def p_all_zero(both) -> bool:
-    heights, rows = both
+def p_all_zero(res) -> bool:
+    heights, rows = res
     for x in heights:
         if not (x == 0):
             return False
@@ -306,59 +315,66 @@ def p_named(d, res) -> bool:
     lo, hi = lo_hi(d)
     if not (oldest == hi - lo):
         return False
+    if len(rows) != len(d):
+        return False
     for pos, date, orig in rows:
         if not (date == want[pos]) or not (orig == d[pos]):
             return False
     return True
 
 
-def p_hfb(t, d, b, res) -> bool:
-    """heights_from_branch_lengths: res = internal heights in index order n..2n-2.  Every parent is strictly
-    older than each child, tips sit at oracle(d), and the height is the smallest one compatible with
-    `at least max(eps, newick length) above each child`."""
+def p_hfb(t, d, b, res, tol=0.0) -> bool:
+    """heights_from_branch_lengths: res = internal heights in index order n..2n-2 (post-order numbering of
+    setup_indexes), b = newick lengths in post-order.  Every parent is strictly older than each child
+    (tips at oracle(d)), and its height is the smallest one that is `max(eps, newick length)` above each
+    child."""
     n = len(d)
     if len(res) != n - 1:
         return False
     want = oracle(d)
-    pos = [0]
-    nxt = [n]
-    ok = [True]
-    # same post-order numbering as setup_indexes: internal nodes n, n+1, ... in post-order; lengths b in post-order
-    lengths = iter(b)
+    st = {'next': n, 'j': 0, 'ok': True}
 
     def rec(x, root):
         if isinstance(x, tuple):
-            hs = [rec(x[0], False), rec(x[1], False)]
-            idx = nxt[0]
-            nxt[0] += 1
-            mine = res[idx - n]
+            kids = [rec(x[0], False), rec(x[1], False)]
+            mine = res[st['next'] - n]
+            st['next'] += 1
             best = None
-            for (hc, lc) in hs:
+            for hc, lc in kids:
                 step = lc if lc > EPS else EPS
                 if not (mine > hc):
-                    ok[0] = False
-                if not (mine >= hc + step):
-                    ok[0] = False
-                if best is None or best < hc + step:
-                    best = hc + step
-            if not (mine == best):
-                ok[0] = False
+                    st['ok'] = False
+                cand = hc + step
+                if best is None or best < cand:
+                    best = cand
+            if tol == 0.0:
+                if not (mine == best):
+                    st['ok'] = False
+            elif not (abs(mine - best) <= tol):
+                st['ok'] = False
             h = mine
         else:
             h = want[x]
-        ln = None if root else next(lengths)
-        return (h, ln) if not root else (h, 0)
+        if root:
+            return (h, None)
+        ln = b[st['j']]
+        st['j'] += 1
+        return (h, ln)
 
     rec(t, True)
-    return ok[0]
+    return st['ok']
 
 
 def hetero(h) -> bool:
-    """used by the twins: at least two different heights"""
+    """used by the twins: at least two different values"""
     for x in h:
         if x != h[0]:
             return True
     return False
+
+
+def col(rows, j):
+    return [r[j] for r in rows]
 
 
 # ------------------------------------------------------------------ bodies
@@ -367,10 +383,9 @@ def _set_dates(m, d):
         m._taxa[i]['date'] = x
 
 
-def upd(q, k=0, po=False):
+def upd(d, k=0, po=False):
     """real TimeTreeModel.update_leaf_heights on the real model number k"""
-    d = dates_of(q)
-    m = MODELS[(len(q), po)][k]
+    m = MODELS[(len(d), po)][k]
     _set_dates(m, d)
     m.sampling_times = None
     m.update_leaf_heights()
@@ -379,10 +394,9 @@ def upd(q, k=0, po=False):
     return list(out)
 
 
-def init(q, k, po=False):
+def init(d, k, po=False):
     """real initialize_dates_from_taxa on the real parsed tree number k"""
-    d = dates_of(q)
-    m = MODELS[(len(q), po)][k]
+    m = MODELS[(len(d), po)][k]
     _set_dates(m, d)
     for node in m.tree.leaf_node_iter():
         node.date = None
@@ -393,14 +407,13 @@ def init(q, k, po=False):
     return rows
 
 
-def both(q, k, po=False):
-    return (upd(q, k, po), init(q, k, po))
+def both(d, k, po=False):
+    return (upd(d, k, po), init(d, k, po))
 
 
 def named(e, k):
     """real setup_dates(tree, heterochronous=True) on tree k whose tips are renamed t<i>_<e_i>"""
-    n = len(e)
-    m = MODELS[(n, False)][k]
+    m = MODELS[(len(e), False)][k]
     old = []
     for node in m.tree.leaf_node_iter():
         old.append((node.taxon, node.taxon.label))
@@ -418,191 +431,171 @@ def named(e, k):
     return (oldest, rows)
 
 
-def hfb(q, b, k):
-    """real initialize_dates_from_taxa + heights_from_branch_lengths on tree k with branch lengths b (post-order)"""
-    n = len(q)
-    d = dates_of(q)
-    m = MODELS[(n, False)][k]
+def hfb(d, b, k):
+    """real initialize_dates_from_taxa + heights_from_branch_lengths on tree k with newick lengths b (post-order)"""
+    m = MODELS[(len(d), False)][k]
     _set_dates(m, d)
     TM.initialize_dates_from_taxa(m.tree, m._taxa)
     j = 0
     for node in m.tree.postorder_node_iter():
         if node.parent_node is not None:
-            node.edge_length = b[j] * BSTEP
+            node.edge_length = b[j]
             j += 1
     return list(TM.heights_from_branch_lengths(m.tree))
 
 
-def bdom(*b) -> bool:
-    for x in b:
-        if not (0 <= x <= BMAX):
-            return False
-    return True
-
-
-def blens(*b):
-    return [x * BSTEP for x in b]
-
-
-def edom(*e) -> bool:
-    for x in e:
-        if not (0 <= x <= NAME_DATE_MAX):
-            return False
-    return True
-
-
 # ================================================================== conditions, 3 taxa
-def nonneg3(q0: int, q1: int, q2: int):
+def nonneg3(d0: NUM, d1: NUM, d2: NUM):
     """
     (1) heights >= 0 and some tip at height exactly 0, both conventions.
-    pre: dom(q0, q1, q2)
+    pre: dom(d0, d1, d2)
     post: p_nonneg_zero(__return__)
     """
-    return upd([q0, q1, q2])
+    return upd([d0, d1, d2])
 
 
-def nonneg3_twin(q0: int, q1: int, q2: int):
+def nonneg3_twin(d0: NUM, d1: NUM, d2: NUM):
     """
-    pre: dom(q0, q1, q2)
+    pre: dom(d0, d1, d2)
     post: not hetero(__return__)
     """
-    return upd([q0, q1, q2])
+    return upd([d0, d1, d2])
 
 
-def ages3(q0: int, q1: int, q2: int):
+def ages3(d0: NUM, d1: NUM, d2: NUM):
     """
     (2) smallest date 0: the dates are the heights.
-    pre: dom(q0, q1, q2) and is_ages(q0, q1, q2)
-    post: p_equal(__return__, dates_of([q0, q1, q2]))
+    pre: dom(d0, d1, d2) and is_ages(d0, d1, d2)
+    post: p_equal(__return__, [d0, d1, d2])
     """
-    return upd([q0, q1, q2])
+    return upd([d0, d1, d2])
 
 
-def ages3_twin(q0: int, q1: int, q2: int):
+def ages3_twin(d0: NUM, d1: NUM, d2: NUM):
     """
-    pre: dom(q0, q1, q2) and is_ages(q0, q1, q2)
+    pre: dom(d0, d1, d2) and is_ages(d0, d1, d2)
     post: not hetero(__return__)
     """
-    return upd([q0, q1, q2])
+    return upd([d0, d1, d2])
 
 
-def calendar3(q0: int, q1: int, q2: int):
+def calendar3(d0: NUM, d1: NUM, d2: NUM):
     """
     (2) smallest date > 0: height = most recent date - date.
-    pre: dom(q0, q1, q2) and not is_ages(q0, q1, q2)
-    post: p_equal(__return__, oracle(dates_of([q0, q1, q2])))
+    pre: dom(d0, d1, d2) and not is_ages(d0, d1, d2)
+    post: p_equal(__return__, oracle([d0, d1, d2]))
     """
-    return upd([q0, q1, q2])
+    return upd([d0, d1, d2])
 
 
-def calendar3_twin(q0: int, q1: int, q2: int):
+def calendar3_twin(d0: NUM, d1: NUM, d2: NUM):
     """
-    pre: dom(q0, q1, q2) and not is_ages(q0, q1, q2)
+    pre: dom(d0, d1, d2) and not is_ages(d0, d1, d2)
     post: not hetero(__return__)
     """
-    return upd([q0, q1, q2])
+    return upd([d0, d1, d2])
 
 
-def order3(q0: int, q1: int, q2: int):
+def order3(d0: NUM, d1: NUM, d2: NUM):
     """
     (2) order reversal (calendar) / order kept (ages); ties in dates <=> ties in heights.
-    pre: dom(q0, q1, q2)
-    post: p_order(dates_of([q0, q1, q2]), __return__)
+    pre: dom(d0, d1, d2)
+    post: p_order([d0, d1, d2], __return__)
     """
-    return upd([q0, q1, q2])
+    return upd([d0, d1, d2])
 
 
-def order3_twin(q0: int, q1: int, q2: int):
+def order3_twin(d0: NUM, d1: NUM, d2: NUM):
     """
-    pre: dom(q0, q1, q2)
+    pre: dom(d0, d1, d2)
     post: not hetero(__return__)
     """
-    return upd([q0, q1, q2])
+    return upd([d0, d1, d2])
 
 
-def position3(q0: int, q1: int, q2: int, k: int):
+def position3(d0: NUM, d1: NUM, d2: NUM, k: int):
     """
     (3) tip of taxon i: node.index == i and node.date == height of taxon i, for every enumerated newick order.
-    pre: dom(q0, q1, q2) and kdom(k, 3)
-    post: p_position(dates_of([q0, q1, q2]), __return__)
+    pre: dom(d0, d1, d2) and kdom(k, 3)
+    post: p_position([d0, d1, d2], __return__)
     """
-    return init([q0, q1, q2], k)
+    return init([d0, d1, d2], k)
 
 
-def position3_twin(q0: int, q1: int, q2: int, k: int):
+def position3_twin(d0: NUM, d1: NUM, d2: NUM, k: int):
     """
-    pre: dom(q0, q1, q2) and kdom(k, 3)
-    post: not (k > KLO and hetero([r[2] for r in __return__]))
+    pre: dom(d0, d1, d2) and kdom(k, 3)
+    post: not (k > KLO and hetero(col(__return__, 2)))
     """
-    return init([q0, q1, q2], k)
+    return init([d0, d1, d2], k)
 
 
-def agree3(q0: int, q1: int, q2: int, k: int):
+def agree3(d0: NUM, d1: NUM, d2: NUM, k: int):
     """
     (3)+(4) sampling_times[node.index] == node.date == height of the tip's own taxon.
-    pre: dom(q0, q1, q2) and kdom(k, 3)
-    post: p_agree(__return__) and p_tip_at_own_time(dates_of([q0, q1, q2]), __return__)
+    pre: dom(d0, d1, d2) and kdom(k, 3)
+    post: p_agree(__return__) and p_tip_at_own_time([d0, d1, d2], __return__)
     """
-    return both([q0, q1, q2], k)
+    return both([d0, d1, d2], k)
 
 
-def agree3_twin(q0: int, q1: int, q2: int, k: int):
+def agree3_twin(d0: NUM, d1: NUM, d2: NUM, k: int):
     """
-    pre: dom(q0, q1, q2) and kdom(k, 3)
+    pre: dom(d0, d1, d2) and kdom(k, 3)
     post: not (k > KLO and hetero(__return__[0]))
     """
-    return both([q0, q1, q2], k)
+    return both([d0, d1, d2], k)
 
 
-def postorder3(q0: int, q1: int, q2: int, k: int):
+def postorder3(d0: NUM, d1: NUM, d2: NUM, k: int):
     """
-    (3) with the parse option use_postorder_indices=True: the tip still sits at the height of its own taxon.
-    pre: dom(q0, q1, q2) and kdom(k, 3)
-    post: p_agree(__return__) and p_tip_at_own_time(dates_of([q0, q1, q2]), __return__)
+    (3)+(4) with the parse option use_postorder_indices=True: the tip still sits at the height of its own taxon.
+    pre: dom(d0, d1, d2) and kdom(k, 3)
+    post: p_agree(__return__) and p_tip_at_own_time([d0, d1, d2], __return__)
     """
-    return both([q0, q1, q2], k, True)
+    return both([d0, d1, d2], k, True)
 
 
-def postorder3_twin(q0: int, q1: int, q2: int, k: int):
+def postorder3_twin(d0: NUM, d1: NUM, d2: NUM, k: int):
     """
-    pre: dom(q0, q1, q2) and kdom(k, 3)
+    pre: dom(d0, d1, d2) and kdom(k, 3)
     post: not (k > KLO and hetero(__return__[0]))
     """
-    return both([q0, q1, q2], k, True)
+    return both([d0, d1, d2], k, True)
 
 
-def iso3(c: int, k: int):
+def iso3(c: NUM, k: int):
     """
     (5) isochronous calendar dates (all equal, non-zero, e.g. 2000): every height is 0.
-    pre: 1 <= c <= QMAX and kdom(k, 3)
+    pre: 0 < c <= DMAX and kdom(k, 3)
     post: p_all_zero(__return__)
     """
     return both([c, c, c], k)
 
 
-def iso3_twin(c: int, k: int):
+def iso3_twin(c: NUM, k: int):
     """
-    pre: 1 <= c <= QMAX and kdom(k, 3)
-    post: not (c == 8000 and k > 0 and len(__return__[1]) == 3)
+    pre: 0 < c <= DMAX and kdom(k, 3)
+    post: not (c == 2000 and k > KLO and len(__return__[1]) == 3)
     """
     return both([c, c, c], k)
 
 
-def shift3(q0: int, q1: int, q2: int, s: int):
+def shift3(d0: NUM, d1: NUM, d2: NUM, s: NUM):
     """
     (5) calendar dates: only date differences matter (same heights after shifting every date by s > 0).
-    pre: dom(q0, q1, q2) and not is_ages(q0, q1, q2) and 1 <= s <= QMAX
+    pre: dom(d0, d1, d2) and not is_ages(d0, d1, d2) and 0 < s <= DMAX
     post: p_equal(__return__[0], __return__[1])
     """
-    return (upd([q0, q1, q2]), upd([q0 + s, q1 + s, q2 + s]))
+    return (upd([d0, d1, d2]), upd([d0 + s, d1 + s, d2 + s]))
 
 
-def shift3_twin(q0: int, q1: int, q2: int, s: int):
+def shift3_twin(d0: NUM, d1: NUM, d2: NUM, s: NUM):
     """
-    pre: dom(q0, q1, q2) and not is_ages(q0, q1, q2) and 1 <= s <= QMAX
+    pre: dom(d0, d1, d2) and not is_ages(d0, d1, d2) and 0 < s <= DMAX
     post: not hetero(__return__[1])
     """
-    return (upd([q0, q1, q2]), upd([q0 + s, q1 + s, q2 + s]))
+    return (upd([d0, d1, d2]), upd([d0 + s, d1 + s, d2 + s]))
 
 
 def named3(e0: int, e1: int, e2: int, k: int):
@@ -617,168 +610,177 @@ def named3(e0: int, e1: int, e2: int, k: int):
 def named3_twin(e0: int, e1: int, e2: int, k: int):
     """
     pre: edom(e0, e1, e2) and kdom(k, 3)
-    post: not (k > KLO and __return__[0] == 2.0 and hetero([r[1] for r in __return__[1]]))
+    post: not (k > KLO and __return__[0] == 2.0 and hetero(col(__return__[1], 1)))
     """
     return named([e0, e1, e2], k)
 
 
-def hfb3(q0: int, q1: int, q2: int, b0: int, b1: int, b2: int, b3: int, k: int):
+def hfb3(d0: NUM, d1: NUM, d2: NUM, b0: float, b1: float, b2: float, b3: float, k: int):
     """
     heights_from_branch_lengths: parents strictly older than children, tips at their sampling time.
-    pre: dom(q0, q1, q2) and bdom(b0, b1, b2, b3) and kdom(k, 3)
-    post: p_hfb(TREES[3][k], oracle(dates_of([q0, q1, q2])), blens(b0, b1, b2, b3), __return__)
+    pre: dom(d0, d1, d2) and bdom(b0, b1, b2, b3) and kdom(k, 3)
+    post: p_hfb(TREES[3][k], [d0, d1, d2], [b0, b1, b2, b3], __return__)
     """
-    return hfb([q0, q1, q2], [b0, b1, b2, b3], k)
+    return hfb([d0, d1, d2], [b0, b1, b2, b3], k)
 
 
-def hfb3_twin(q0: int, q1: int, q2: int, b0: int, b1: int, b2: int, b3: int, k: int):
+def hfb3_twin(d0: NUM, d1: NUM, d2: NUM, b0: float, b1: float, b2: float, b3: float, k: int):
     """
-    pre: dom(q0, q1, q2) and bdom(b0, b1, b2, b3) and kdom(k, 3)
-    post: not (k > KLO and __return__[1] > 3 and q0 > q1 > q2 > 0)
+    pre: dom(d0, d1, d2) and bdom(b0, b1, b2, b3) and kdom(k, 3)
+    post: not (k > KLO and __return__[1] > 3 and d0 > d1 > d2 > 0)
     """
-    return hfb([q0, q1, q2], [b0, b1, b2, b3], k)
+    return hfb([d0, d1, d2], [b0, b1, b2, b3], k)
 
 
 # ================================================================== conditions, 4 taxa
-def nonneg4(q0: int, q1: int, q2: int, q3: int):
+def nonneg4(d0: NUM, d1: NUM, d2: NUM, d3: NUM):
     """
-    pre: dom(q0, q1, q2, q3)
+    (1) heights >= 0 and some tip at height exactly 0, both conventions.
+    pre: dom(d0, d1, d2, d3)
     post: p_nonneg_zero(__return__)
     """
-    return upd([q0, q1, q2, q3])
+    return upd([d0, d1, d2, d3])
 
 
-def nonneg4_twin(q0: int, q1: int, q2: int, q3: int):
+def nonneg4_twin(d0: NUM, d1: NUM, d2: NUM, d3: NUM):
     """
-    pre: dom(q0, q1, q2, q3)
+    pre: dom(d0, d1, d2, d3)
     post: not hetero(__return__)
     """
-    return upd([q0, q1, q2, q3])
+    return upd([d0, d1, d2, d3])
 
 
-def ages4(q0: int, q1: int, q2: int, q3: int):
+def ages4(d0: NUM, d1: NUM, d2: NUM, d3: NUM):
     """
-    pre: dom(q0, q1, q2, q3) and is_ages(q0, q1, q2, q3)
-    post: p_equal(__return__, dates_of([q0, q1, q2, q3]))
+    (2) smallest date 0: the dates are the heights.
+    pre: dom(d0, d1, d2, d3) and is_ages(d0, d1, d2, d3)
+    post: p_equal(__return__, [d0, d1, d2, d3])
     """
-    return upd([q0, q1, q2, q3])
+    return upd([d0, d1, d2, d3])
 
 
-def ages4_twin(q0: int, q1: int, q2: int, q3: int):
+def ages4_twin(d0: NUM, d1: NUM, d2: NUM, d3: NUM):
     """
-    pre: dom(q0, q1, q2, q3) and is_ages(q0, q1, q2, q3)
+    pre: dom(d0, d1, d2, d3) and is_ages(d0, d1, d2, d3)
     post: not hetero(__return__)
     """
-    return upd([q0, q1, q2, q3])
+    return upd([d0, d1, d2, d3])
 
 
-def calendar4(q0: int, q1: int, q2: int, q3: int):
+def calendar4(d0: NUM, d1: NUM, d2: NUM, d3: NUM):
     """
-    pre: dom(q0, q1, q2, q3) and not is_ages(q0, q1, q2, q3)
-    post: p_equal(__return__, oracle(dates_of([q0, q1, q2, q3])))
+    (2) smallest date > 0: height = most recent date - date.
+    pre: dom(d0, d1, d2, d3) and not is_ages(d0, d1, d2, d3)
+    post: p_equal(__return__, oracle([d0, d1, d2, d3]))
     """
-    return upd([q0, q1, q2, q3])
+    return upd([d0, d1, d2, d3])
 
 
-def calendar4_twin(q0: int, q1: int, q2: int, q3: int):
+def calendar4_twin(d0: NUM, d1: NUM, d2: NUM, d3: NUM):
     """
-    pre: dom(q0, q1, q2, q3) and not is_ages(q0, q1, q2, q3)
+    pre: dom(d0, d1, d2, d3) and not is_ages(d0, d1, d2, d3)
     post: not hetero(__return__)
     """
-    return upd([q0, q1, q2, q3])
+    return upd([d0, d1, d2, d3])
 
 
-def order4(q0: int, q1: int, q2: int, q3: int):
+def order4(d0: NUM, d1: NUM, d2: NUM, d3: NUM):
     """
-    pre: dom(q0, q1, q2, q3)
-    post: p_order(dates_of([q0, q1, q2, q3]), __return__)
+    (2) order reversal (calendar) / order kept (ages); ties in dates <=> ties in heights.
+    pre: dom(d0, d1, d2, d3)
+    post: p_order([d0, d1, d2, d3], __return__)
     """
-    return upd([q0, q1, q2, q3])
+    return upd([d0, d1, d2, d3])
 
 
-def order4_twin(q0: int, q1: int, q2: int, q3: int):
+def order4_twin(d0: NUM, d1: NUM, d2: NUM, d3: NUM):
     """
-    pre: dom(q0, q1, q2, q3)
+    pre: dom(d0, d1, d2, d3)
     post: not hetero(__return__)
     """
-    return upd([q0, q1, q2, q3])
+    return upd([d0, d1, d2, d3])
 
 
-def position4(q0: int, q1: int, q2: int, q3: int, k: int):
+def position4(d0: NUM, d1: NUM, d2: NUM, d3: NUM, k: int):
     """
-    pre: dom(q0, q1, q2, q3) and kdom(k, 4)
-    post: p_position(dates_of([q0, q1, q2, q3]), __return__)
+    (3) tip of taxon i: node.index == i and node.date == height of taxon i, for every enumerated newick order.
+    pre: dom(d0, d1, d2, d3) and kdom(k, 4)
+    post: p_position([d0, d1, d2, d3], __return__)
     """
-    return init([q0, q1, q2, q3], k)
+    return init([d0, d1, d2, d3], k)
 
 
-def position4_twin(q0: int, q1: int, q2: int, q3: int, k: int):
+def position4_twin(d0: NUM, d1: NUM, d2: NUM, d3: NUM, k: int):
     """
-    pre: dom(q0, q1, q2, q3) and kdom(k, 4)
-    post: not (k > KLO and hetero([r[2] for r in __return__]))
+    pre: dom(d0, d1, d2, d3) and kdom(k, 4)
+    post: not (k > KLO and hetero(col(__return__, 2)))
     """
-    return init([q0, q1, q2, q3], k)
+    return init([d0, d1, d2, d3], k)
 
 
-def agree4(q0: int, q1: int, q2: int, q3: int, k: int):
+def agree4(d0: NUM, d1: NUM, d2: NUM, d3: NUM, k: int):
     """
-    pre: dom(q0, q1, q2, q3) and kdom(k, 4)
-    post: p_agree(__return__) and p_tip_at_own_time(dates_of([q0, q1, q2, q3]), __return__)
+    (3)+(4) sampling_times[node.index] == node.date == height of the tip's own taxon.
+    pre: dom(d0, d1, d2, d3) and kdom(k, 4)
+    post: p_agree(__return__) and p_tip_at_own_time([d0, d1, d2, d3], __return__)
     """
-    return both([q0, q1, q2, q3], k)
+    return both([d0, d1, d2, d3], k)
 
 
-def agree4_twin(q0: int, q1: int, q2: int, q3: int, k: int):
+def agree4_twin(d0: NUM, d1: NUM, d2: NUM, d3: NUM, k: int):
     """
-    pre: dom(q0, q1, q2, q3) and kdom(k, 4)
+    pre: dom(d0, d1, d2, d3) and kdom(k, 4)
     post: not (k > KLO and hetero(__return__[0]))
     """
-    return both([q0, q1, q2, q3], k)
+    return both([d0, d1, d2, d3], k)
 
 
-def postorder4(q0: int, q1: int, q2: int, q3: int, k: int):
+def postorder4(d0: NUM, d1: NUM, d2: NUM, d3: NUM, k: int):
     """
-    pre: dom(q0, q1, q2, q3) and kdom(k, 4)
-    post: p_agree(__return__) and p_tip_at_own_time(dates_of([q0, q1, q2, q3]), __return__)
+    (3)+(4) with the parse option use_postorder_indices=True: the tip still sits at the height of its own taxon.
+    pre: dom(d0, d1, d2, d3) and kdom(k, 4)
+    post: p_agree(__return__) and p_tip_at_own_time([d0, d1, d2, d3], __return__)
     """
-    return both([q0, q1, q2, q3], k, True)
+    return both([d0, d1, d2, d3], k, True)
 
 
-def postorder4_twin(q0: int, q1: int, q2: int, q3: int, k: int):
+def postorder4_twin(d0: NUM, d1: NUM, d2: NUM, d3: NUM, k: int):
     """
-    pre: dom(q0, q1, q2, q3) and kdom(k, 4)
+    pre: dom(d0, d1, d2, d3) and kdom(k, 4)
     post: not (k > KLO and hetero(__return__[0]))
     """
-    return both([q0, q1, q2, q3], k, True)
+    return both([d0, d1, d2, d3], k, True)
 
 
-def iso4(c: int, k: int):
+def iso4(c: NUM, k: int):
     """
-    pre: 1 <= c <= QMAX and kdom(k, 4)
+    (5) isochronous calendar dates (all equal, non-zero, e.g. 2000): every height is 0.
+    pre: 0 < c <= DMAX and kdom(k, 4)
     post: p_all_zero(__return__)
     """
     return both([c, c, c, c], k)
 
 
-def iso4_twin(c: int, k: int):
+def iso4_twin(c: NUM, k: int):
     """
-    pre: 1 <= c <= QMAX and kdom(k, 4)
-    post: not (c == 8000 and k > KLO and len(__return__[1]) == 4)
+    pre: 0 < c <= DMAX and kdom(k, 4)
+    post: not (c == 2000 and k > KLO and len(__return__[1]) == 4)
     """
     return both([c, c, c, c], k)
 
 
-def shift4(q0: int, q1: int, q2: int, q3: int, s: int):
+def shift4(d0: NUM, d1: NUM, d2: NUM, d3: NUM, s: NUM):
     """
-    pre: dom(q0, q1, q2, q3) and not is_ages(q0, q1, q2, q3) and 1 <= s <= QMAX
+    (5) calendar dates: only date differences matter (same heights after shifting every date by s > 0).
+    pre: dom(d0, d1, d2, d3) and not is_ages(d0, d1, d2, d3) and 0 < s <= DMAX
     post: p_equal(__return__[0], __return__[1])
     """
-    return (upd([q0, q1, q2, q3]), upd([q0 + s, q1 + s, q2 + s, q3 + s]))
+    return (upd([d0, d1, d2, d3]), upd([d0 + s, d1 + s, d2 + s, d3 + s]))
 
 
-def shift4_twin(q0: int, q1: int, q2: int, q3: int, s: int):
+def shift4_twin(d0: NUM, d1: NUM, d2: NUM, d3: NUM, s: NUM):
     """
-    pre: dom(q0, q1, q2, q3) and not is_ages(q0, q1, q2, q3) and 1 <= s <= QMAX
+    pre: dom(d0, d1, d2, d3) and not is_ages(d0, d1, d2, d3) and 0 < s <= DMAX
     post: not hetero(__return__[1])
     """
-    return (upd([q0, q1, q2, q3]), upd([q0 + s, q1 + s, q2 + s, q3 + s]))
+    return (upd([d0, d1, d2, d3]), upd([d0 + s, d1 + s, d2 + s, d3 + s]))
